@@ -565,10 +565,10 @@ Definition unsafe_entry_points (p : program) : list (string * option (list strin
    recorded as a known finding C19/<function>/<parameter>): entry points that really do
    modify a caller's array, with the parameters concerned.  The generated obligation
    says: every entry point is safe, except that these may modify (at most) these. *)
-Definition accepted_unsafe : list (string * list string) :=
-  [("SIR_heterogeneous_pairwise", ["SkSl0"; "SkIl0"]);
-   ("SIS_effective_degree", ["Ssi0"; "Isi0"]);
-   ("SIR_effective_degree", ["S_si0"])]%string.
+(* Now EMPTY: the three defects once listed here (SIR_heterogeneous_pairwise SkSl0/SkIl0,
+   SIS_effective_degree Ssi0/Isi0, SIR_effective_degree S_si0) were repaired in /repo
+   (known_findings.json, "fixed"), so the obligation is "every entry point is safe". *)
+Definition accepted_unsafe : list (string * list string) := [].
 Fixpoint accepted_params (l : list (string * list string)) (f : string) : list string :=
   match l with
   | [] => []
